@@ -127,10 +127,11 @@ def step (s : DState) : List String → DState × String
   | ["ignored", p] =>
     match dec p with
     | some p =>
-      (s, match checkIgnored s.db s.ig s.defaultIgnore s.now p with
-          | .ok true => "1"
-          | .ok false => "0"
-          | .error e => "crash\t" ++ encErr e)
+      -- "1" = `Owner.doPrivmsg` returns before dispatching (ignored caller, or a prefix that is no user hostmask)
+      (s, match ownerDoPrivmsg s.db s.ig s.defaultIgnore s.now p with
+          | .silent => "1"
+          | .dispatch => "0"
+          | .crashed e => "crash\t" ++ encErr e)
     | none => (s, "bad-op")
   | ["received", p, ch, lob, bans, igns] =>
     match dec p, decOpt ch, decBool lob, decAuth bans, decAuth igns with
